@@ -2,6 +2,7 @@
 import json
 
 import common
+import exectrace
 
 
 def nontrivial(v):
@@ -23,6 +24,10 @@ def check(run, only=None):
         vecs = r["lines"]
     common.replay_vectors(run, vecs, nontrivial=nontrivial)
     run.traces += len(vecs) - run.oom
+
+    if only is None:
+        # binding T: seeded random programs over the whole schema, accepted by TLC against the reference executor
+        exectrace.run_exec_trace(run, 20000 if run.tier == "thorough" else 1000, 6)
 
 
 def replay(run, path):
